@@ -102,8 +102,10 @@ def generate(name, n, seed, max_lines=6, max_depth=2, nfuncs=1, exhaustive=False
         if not r.ok:
             raise MachineryError("ProgGen.tla: " + r.out[-2000:])
     else:
+        # draw more behaviours than asked for: a random walk rarely reaches the deep corners of the grammar (break / continue /
+        # else need an open conditional inside a loop), the selection below keeps the programs that did
         r = run_tlc(os.path.join(SPEC, "ProgGen.tla"), os.path.join(d, "ProgGen.cfg"), d, workers=1, timeout=600,
-                    simulate="num=%d" % n, extra=["-depth", "40", "-seed", str(seed + 1)])
+                    simulate="num=%d" % (n * 4), extra=["-depth", "40", "-seed", str(seed + 1)])
         if "Error:" in r.out and "Invariant" in r.out:
             raise MachineryError("ProgGen.tla: " + r.out[-2000:])
     progs = {}
@@ -114,7 +116,16 @@ def generate(name, n, seed, max_lines=6, max_depth=2, nfuncs=1, exhaustive=False
     if not exhaustive and len(keys) > n:
         import random
         random.Random(seed).shuffle(keys)
-        keys = sorted(keys[:n])
+        rare = ("break", "continue", "else")
+
+        def score(k):
+            p = progs[k]
+            kinds = {l["kind"] for l in p["lines"]}
+            depth = max([l["ind"] for l in p["lines"]] or [0])
+            return sum(x in kinds for x in rare) * 2 + (depth >= 2) + any(l["kind"] == "if" for f in p["fns"] for l in f["lines"])
+        half = sorted(keys, key=score, reverse=True)[: n // 2]          # stable: ties keep the seeded order
+        rest = [k for k in keys if k not in set(half)][: n - len(half)]
+        keys = sorted(half + rest)
     for k, key in enumerate(keys):
         out.append(("pg_%s_%04d" % (name[-4:], k), render(progs[key], decorator="@constexpr" if pure else None), progs[key]))
     return out, r
